@@ -409,3 +409,12 @@ func c03WholeRun(t *testing.T, s *sim.Scn) *sim.Outcome {
 	}
 	return o
 }
+
+// p2pHeaderStore opens the P2P header store a stopped node left on its disk (read-only).
+func p2pHeaderStore(v *rnode) (*goheaderstore.Store[*types.SignedHeader], error) {
+	var kv ds.Batching = v.sn.Disk.PeekDS()
+	if !v.light {
+		kv = ktds.Wrap(kv, ktds.PrefixTransform{Prefix: ds.NewKey("0")})
+	}
+	return goheaderstore.NewStore[*types.SignedHeader](kv, goheaderstore.WithStorePrefix("headerSync"))
+}
